@@ -300,6 +300,10 @@ func (d *D) Pick(q, t int64) int64 {
 }
 
 func (d *D) bin(flavour string) string {
+	if os.Getenv("VERIF_COVER") != "" {
+		// coverage measurement (cover.sh): every worker runs the statement-coverage build; GOCOVERDIR is inherited
+		return filepath.Join(verifDir, "build", "vh-cover")
+	}
 	switch flavour {
 	case "race":
 		return filepath.Join(verifDir, "build", "vh-race")
@@ -775,7 +779,8 @@ func (d *D) finish(writeEvidence bool) {
 		exit = 1
 	}
 	distinct := int64(len(d.Set)) + d.DistinctN
-	if writeEvidence {
+	// measurement runs (cover.sh, mutation sweeps) never touch the evidence files
+	if writeEvidence && os.Getenv("VERIF_NOEVIDENCE") == "" {
 		cov := map[string]any{
 			"evaluations":         d.Evals,
 			"distinct_nontrivial": distinct,
